@@ -4,6 +4,7 @@
 (* local Bootstrap, calls on an import, pipelined local call, Finish, Release  *)
 (* of an import), with one transport fault injected at the k-th operation of   *)
 (* one kind (message creation, send, receive), followed by the rest of the     *)
+(* (the last two base scenarios put an embargo in force, see RpcEmbargo.tla)    *)
 (* scenario and Close (once or twice).                                         *)
 EXTENDS Integers, Sequences, FiniteSets, TLC, Json
 
@@ -16,6 +17,11 @@ LBoot == [Act("l-bootstrap") EXCEPT !.h = "boot", !.cap = 9]
 PRet(i, kind, cap, tag) == [Act("p-return") EXCEPT !.q = i, !.kind = kind, !.cap = cap, !.tag = tag]
 LCall(h, t) == [Act("l-call") EXCEPT !.h = h, !.tag = t]
 LRel(h) == [Act("l-release") EXCEPT !.h = h]
+LKeep(h, t) == [Act("l-call") EXCEPT !.h = h, !.tag = t, !.kind = "keep"]
+LPipe(on, t) == [Act("l-pcall") EXCEPT !.on = on, !.tag = t]
+PRetLoop(i, exp, tag) == [Act("p-return") EXCEPT !.q = i, !.kind = "loopcap", !.exp = exp, !.tag = tag]
+Pump == Act("p-pump")
+OnCancel(tag, k) == [Act("a-oncancel") EXCEPT !.tag = tag, !.kind = k]
 
 Bases == {
   \* incoming traffic only
@@ -25,7 +31,14 @@ Bases == {
   \* outgoing traffic: Bootstrap, calls on the import, release
   <<LBoot, PRet(0, "bootcap", 9, 0 - 1), LCall("boot", 101), PRet(1, "results", 0 - 1, 101), LCall("boot", 102), PRet(2, "exception", 0 - 1, 102), LRel("boot")>>,
   \* local call made before the bootstrap question returns (pipelined on the question), both directions mixed
-  <<Boot, LBoot, LCall("boot", 101), PRet(0, "bootcap", 9, 0 - 1), PRet(1, "results", 0 - 1, 101), Call(2, 1, 1, "root", 5), Ret(1, "ok-nocap"), LRel("boot")>>
+  <<Boot, LBoot, LCall("boot", 101), PRet(0, "bootcap", 9, 0 - 1), PRet(1, "results", 0 - 1, 101), Call(2, 1, 1, "root", 5), Ret(1, "ok-nocap"), LRel("boot")>>,
+  \* a method body that completes with a new capability when it is cancelled (by Close, by an abort, by an early Finish)
+  <<Boot, Call(2, 1, 1, "root", 0 - 1), OnCancel(1, "ok-newcap"), Call(3, 1, 2, "root", 5), OnCancel(2, "ok-nocap"), Fin(2, FALSE)>>,
+  \* embargo (spec/rpc/RpcEmbargo.tla, caller role): a local call pipelined on a question whose answer turns out to be a capability of
+  \* this vat, a second one held back by the embargo, then the peer reflects the first call and echoes the Disembargo
+  <<Boot, LBoot, PRet(0, "bootcap", 9, 0 - 1), LKeep("boot", 100), LPipe(100, 1), PRetLoop(1, 1, 100), LPipe(100, 2), Pump, Pump, LPipe(100, 3)>>,
+  \* embargo, callee role: the method returns the capability it was given; pipelined calls are forwarded, the Disembargo is echoed
+  <<Boot, Call(2, 1, 100, "root", 5), Call(3, 2, 1, "", 0 - 1), Ret(100, "ok-argcap"), Call(4, 2, 2, "", 0 - 1), Pump, Pump, Pump, Pump>>
 }
 Faults == { [Act("fault") EXCEPT !.kind = op, !.k = k] : op \in {"newmessage", "send", "recv"}, k \in 1..7 }
 Closes == { <<Act("close")>>, <<Act("close"), Act("close")>> }
